@@ -571,3 +571,279 @@ Proof.
   - rewrite (dq_eval dq_char_full (fun c => c < 1114112)); auto using dq_char_full_shape.
   - apply (dq_is_quoted dq_char_full (fun c => c < 1114112)); auto using dq_char_full_shape.
 Qed.
+(* ------------------------------------------------------------------ which accepted texts are string literals *)
+Definition is_hex (c : N) : bool := match hex_val c with Some _ => true | None => false end.
+
+(* the text after the opening quote: no raw LF before the closing quote, every \x \u \U has its
+   hexadecimal digits (and \U a value below 0x110000), no \N *)
+Fixpoint lit_ok (q : N) (s : text) : bool :=
+  match s with
+  | [] => false
+  | c :: r =>
+    if c =? q then true
+    else if c =? 10 then false
+    else if c =? 92 then
+      match r with
+      | [] => false
+      | d :: r1 =>
+        if d =? 120 then
+          match r1 with
+          | h1 :: h2 :: r' => is_hex h1 && is_hex h2 && lit_ok q r'
+          | _ => false
+          end
+        else if d =? 117 then
+          match r1 with
+          | h1 :: h2 :: h3 :: h4 :: r' => forallb is_hex [h1; h2; h3; h4] && lit_ok q r'
+          | _ => false
+          end
+        else if d =? 85 then
+          match r1 with
+          | h1 :: h2 :: h3 :: h4 :: h5 :: h6 :: h7 :: h8 :: r' =>
+              match hex_num [h1; h2; h3; h4; h5; h6; h7; h8] 0 with
+              | Some v => (v <? 1114112) && lit_ok q r'
+              | None => false
+              end
+          | _ => false
+          end
+        else if d =? 78 then false
+        else lit_ok q r1
+      end
+    else lit_ok q r
+  end.
+
+Definition okres (l : lit) : Prop := exists t rest, l = LOk t rest /\ blank_tail rest = true.
+
+Lemma okres_push : forall c l, okres l <-> okres (push c l).
+Proof.
+  intros c l. split.
+  - intros (t & rest & -> & H). exists (c :: t), rest. auto.
+  - destruct l as [t rest| |]; cbn [push]; intros (t' & rest' & E & H); try discriminate.
+    inversion E; subst. exists t, rest'. auto.
+Qed.
+
+Lemma hex_val_lt : forall c d, hex_val c = Some d -> d < 16.
+Proof.
+  intros c d H. unfold hex_val in H.
+  destruct ((48 <=? c) && (c <=? 57)) eqn:E1.
+  { inversion H; subst. apply andb_true_iff in E1. destruct E1 as [A B]. apply N.leb_le in A, B. lia. }
+  destruct ((97 <=? c) && (c <=? 102)) eqn:E2.
+  { inversion H; subst. apply andb_true_iff in E2. destruct E2 as [A B]. apply N.leb_le in A, B. lia. }
+  destruct ((65 <=? c) && (c <=? 70)) eqn:E3; [|discriminate].
+  inversion H; subst. apply andb_true_iff in E3. destruct E3 as [A B]. apply N.leb_le in A, B. lia.
+Qed.
+
+Lemma hex_num_all_hex : forall l acc, forallb is_hex l = true ->
+  exists v, hex_num l acc = Some v /\ v < (acc + 1) * 16 ^ N.of_nat (length l).
+Proof.
+  induction l as [|c l IH]; intros acc H.
+  - exists acc. split; [reflexivity|]. cbn. lia.
+  - cbn [forallb] in H. apply andb_true_iff in H. destruct H as [Hc Hl].
+    unfold is_hex in Hc. cbn [hex_num]. destruct (hex_val c) as [d|] eqn:E; [|discriminate].
+    apply hex_val_lt in E. destruct (IH (16 * acc + d) Hl) as (v & Hv & Hlt). exists v. split; [exact Hv|].
+    cbn [length]. rewrite Nat2N.inj_succ, N.pow_succ_r'.
+    assert (16 * acc + d + 1 <= 16 * (acc + 1)) by lia. nia.
+Qed.
+
+Lemma hex_num_not_hex : forall l acc, forallb is_hex l = false -> hex_num l acc = None.
+Proof.
+  induction l as [|c l IH]; intros acc H; [discriminate|].
+  cbn [forallb] in H. cbn [hex_num]. unfold is_hex in H.
+  destruct (hex_val c); [|reflexivity]. cbn [andb] in H. apply IH. exact H.
+Qed.
+
+Lemma is_hex_plain : forall q c, q = 34 \/ q = 39 -> is_hex c = true -> plain q c = true.
+Proof.
+  intros q c Hq H. unfold is_hex in H. destruct (hex_val c) as [d|] eqn:E; [|discriminate].
+  unfold hex_val in E. unfold plain.
+  assert (c <> q /\ c <> 92) as [A B].
+  { destruct ((48 <=? c) && (c <=? 57)) eqn:E1.
+    { apply andb_true_iff in E1. destruct E1 as [X Y]. apply N.leb_le in X, Y. destruct Hq; subst; lia. }
+    destruct ((97 <=? c) && (c <=? 102)) eqn:E2.
+    { apply andb_true_iff in E2. destruct E2 as [X Y]. apply N.leb_le in X, Y. destruct Hq; subst; lia. }
+    destruct ((65 <=? c) && (c <=? 70)) eqn:E3; [|discriminate].
+    apply andb_true_iff in E3. destruct E3 as [X Y]. apply N.leb_le in X, Y. destruct Hq; subst; lia. }
+  apply N.eqb_neq in A, B. rewrite A, B. reflexivity.
+Qed.
+
+Lemma scan_plain_cons : forall q c r, plain q c = true -> scan_simple q (c :: r) = scan_simple q r.
+Proof. intros q c r H. apply (scan_plain q [c] r). cbn. rewrite H. reflexivity. Qed.
+
+Lemma lit_ok_plain_cons : forall q c r, plain q c = true -> c <> 10 -> lit_ok q (c :: r) = lit_ok q r.
+Proof.
+  intros q c r H H10. unfold plain in H. apply andb_true_iff in H. destruct H as [A B].
+  apply negb_true_iff in A, B. apply N.eqb_neq in H10. cbn [lit_ok]. rewrite A, H10, B. reflexivity.
+Qed.
+
+Lemma oct_plain : forall q c, q = 34 \/ q = 39 -> is_oct c = true -> plain q c = true /\ c <> 10.
+Proof.
+  intros q c Hq H. unfold is_oct in H. apply andb_true_iff in H. destruct H as [X Y]. apply N.leb_le in X, Y.
+  unfold plain. split; [|lia].
+  replace (c =? q) with false by (symmetry; apply N.eqb_neq; destruct Hq; subst; lia).
+  replace (c =? 92) with false by (symmetry; apply N.eqb_neq; lia). reflexivity.
+Qed.
+Lemma okres_hex_escape : forall ds limit K,
+  okres (hex_escape ds limit K) <->
+  (exists v, hex_num ds 0 = Some v /\ v <? limit = true) /\ okres K.
+Proof.
+  intros ds limit K. unfold hex_escape. destruct (hex_num ds 0) as [v|].
+  - destruct (v <? limit) eqn:E.
+    + rewrite <- okres_push. split; [intros H; split; eauto | intros [_ H]; exact H].
+    + split; [intros (t & r & X & _); discriminate | intros [(v' & X & Y) _]; inversion X; subst; congruence].
+  - split; [intros (t & r & X & _); discriminate | intros [(v' & X & Y) _]; discriminate].
+Qed.
+
+Lemma not_okres_err : ~ okres LErr.
+Proof. intros (t & r & X & _). discriminate. Qed.
+Lemma not_okres_unsup : ~ okres LUnsup.
+Proof. intros (t & r & X & _). discriminate. Qed.
+
+Section Accepted.
+  Variable q : N.
+  Hypothesis q_quote : q = 34 \/ q = 39.
+
+  Lemma body_of_accepted : forall n s, (length s <= n)%nat -> scan_simple q s = true ->
+    (okres (body q false s) <-> lit_ok q s = true).
+  Proof.
+    assert (Hq92 : q <> 92) by (destruct q_quote; lia).
+    assert (Hq10 : q <> 10) by (destruct q_quote; lia).
+    induction n as [|n IH]; intros s Hn Hs.
+    { destruct s; [discriminate | cbn in Hn; lia]. }
+    destruct s as [|c r]; [discriminate|].
+    cbn [scan_simple] in Hs. cbn [body lit_ok].
+    destruct (c =? q) eqn:Eq.
+    { (* closing quote *)
+      split; [reflexivity|]. intros _.
+      destruct r as [|x [|y r']]; try discriminate.
+      - exists [], []. auto.
+      - apply N.eqb_eq in Hs. subst x. exists [], [10]. auto. }
+    destruct (c =? 10) eqn:E10.
+    { split; [intros H; destruct (not_okres_err H) | discriminate]. }
+    destruct (c =? 92) eqn:Eb.
+    2:{ rewrite <- okres_push. apply IH; [cbn in Hn; lia | exact Hs]. }
+    destruct r as [|d r1]; [discriminate|].
+    destruct (d =? 10) eqn:Ed10; [discriminate|].
+    assert (Hl1 : (length r1 <= n)%nat) by (cbn in Hn; lia).
+    match goal with |- _ <-> ?g = true => set (G := g) end.
+    assert (Hsimple : forall v, d <> 120 -> d <> 117 -> d <> 85 -> d <> 78 ->
+              (okres (push v (body q false r1)) <-> G = true)).
+    { intros v H1 H2 H3 H4. rewrite <- okres_push. subst G.
+      apply N.eqb_neq in H1, H2, H3, H4. rewrite H1, H2, H3, H4. apply IH; assumption. }
+    destruct ((d =? 92) || (d =? 39) || (d =? 34)) eqn:E1.
+    { apply Hsimple; intros ->; discriminate. }
+    destruct (d =? 97) eqn:E2. { apply N.eqb_eq in E2. subst d. apply Hsimple; discriminate. }
+    destruct (d =? 98) eqn:E3. { apply N.eqb_eq in E3. subst d. apply Hsimple; discriminate. }
+    destruct (d =? 102) eqn:E4. { apply N.eqb_eq in E4. subst d. apply Hsimple; discriminate. }
+    destruct (d =? 110) eqn:E5. { apply N.eqb_eq in E5. subst d. apply Hsimple; discriminate. }
+    destruct (d =? 114) eqn:E6. { apply N.eqb_eq in E6. subst d. apply Hsimple; discriminate. }
+    destruct (d =? 116) eqn:E7. { apply N.eqb_eq in E7. subst d. apply Hsimple; discriminate. }
+    destruct (d =? 118) eqn:E8. { apply N.eqb_eq in E8. subst d. apply Hsimple; discriminate. }
+    destruct (is_oct d) eqn:Eo.
+    { (* octal: 1 to 3 digits; the digits are harmless for both scanners *)
+      assert (Hd : 48 <= d <= 55).
+      { unfold is_oct in Eo. apply andb_true_iff in Eo. destruct Eo as [X Y]. apply N.leb_le in X, Y. lia. }
+      assert (HG : G = lit_ok q r1).
+      { subst G. replace (d =? 120) with false by (symmetry; apply N.eqb_neq; lia).
+        replace (d =? 117) with false by (symmetry; apply N.eqb_neq; lia).
+        replace (d =? 85) with false by (symmetry; apply N.eqb_neq; lia).
+        replace (d =? 78) with false by (symmetry; apply N.eqb_neq; lia). reflexivity. }
+      rewrite HG. clear HG.
+      destruct r1 as [|d2 r2]; [rewrite <- okres_push; apply IH; assumption|].
+      destruct (is_oct d2) eqn:Eo2; [|rewrite <- okres_push; apply IH; assumption].
+      destruct (oct_plain q d2 q_quote Eo2) as [P2 N2].
+      rewrite (lit_ok_plain_cons q d2 r2 P2 N2). rewrite (scan_plain_cons q d2 r2 P2) in Hs.
+      assert (Hl2 : (length r2 <= n)%nat) by (cbn in Hl1; lia).
+      destruct r2 as [|d3 r3]; [rewrite <- okres_push; apply IH; assumption|].
+      destruct (is_oct d3) eqn:Eo3; [|rewrite <- okres_push; apply IH; assumption].
+      destruct (oct_plain q d3 q_quote Eo3) as [P3 N3].
+      rewrite (lit_ok_plain_cons q d3 r3 P3 N3). rewrite (scan_plain_cons q d3 r3 P3) in Hs.
+      rewrite <- okres_push. apply IH; [cbn in Hl2; lia | assumption]. }
+    destruct (d =? 120) eqn:Ex.
+    { subst G. destruct r1 as [|h1 [|h2 r']]; try (split; [intros H; destruct (not_okres_err H) | discriminate]).
+      rewrite okres_hex_escape.
+      destruct (is_hex h1 && is_hex h2) eqn:Eh.
+      - apply andb_true_iff in Eh. destruct Eh as [A B].
+        rewrite (scan_plain_cons q h1 _ (is_hex_plain q h1 q_quote A)) in Hs.
+        rewrite (scan_plain_cons q h2 _ (is_hex_plain q h2 q_quote B)) in Hs.
+        cbn [andb]. rewrite <- (IH r'); [| cbn in Hl1; lia | exact Hs].
+        split; [intros [_ H]; exact H | intros H; split; [|exact H]].
+        destruct (hex_num_all_hex [h1; h2] 0) as (v & Hv & Hlt); [cbn [forallb]; rewrite A, B; reflexivity|].
+        exists v. split; [exact Hv | apply N.ltb_lt; cbn in Hlt; lia].
+      - cbn [andb]. split; [|discriminate]. intros [(v & Hv & _) _].
+        rewrite hex_num_not_hex in Hv; [discriminate|]. cbn [forallb]. rewrite andb_true_r. exact Eh. }
+    destruct (d =? 117) eqn:Eu.
+    { subst G. destruct r1 as [|h1 [|h2 [|h3 [|h4 r']]]]; try (split; [intros H; destruct (not_okres_err H) | discriminate]).
+      rewrite okres_hex_escape.
+      destruct (forallb is_hex [h1; h2; h3; h4]) eqn:Eh.
+      - pose proof Eh as Eh'. cbn [forallb] in Eh'.
+        apply andb_true_iff in Eh'. destruct Eh' as [A Eh'].
+        apply andb_true_iff in Eh'. destruct Eh' as [B Eh'].
+        apply andb_true_iff in Eh'. destruct Eh' as [C Eh'].
+        apply andb_true_iff in Eh'. destruct Eh' as [D _].
+        rewrite (scan_plain_cons q h1 _ (is_hex_plain q h1 q_quote A)) in Hs.
+        rewrite (scan_plain_cons q h2 _ (is_hex_plain q h2 q_quote B)) in Hs.
+        rewrite (scan_plain_cons q h3 _ (is_hex_plain q h3 q_quote C)) in Hs.
+        rewrite (scan_plain_cons q h4 _ (is_hex_plain q h4 q_quote D)) in Hs.
+        cbn [andb]. rewrite <- (IH r'); [| cbn in Hl1; lia | exact Hs].
+        split; [intros [_ H]; exact H | intros H; split; [|exact H]].
+        destruct (hex_num_all_hex [h1; h2; h3; h4] 0 Eh) as (v & Hv & Hlt).
+        exists v. split; [exact Hv | apply N.ltb_lt; cbn in Hlt; lia].
+      - cbn [andb]. split; [|discriminate]. intros [(v & Hv & _) _].
+        rewrite hex_num_not_hex in Hv; [discriminate | exact Eh]. }
+    destruct (d =? 85) eqn:EU.
+    { subst G.
+      destruct r1 as [|h1 [|h2 [|h3 [|h4 [|h5 [|h6 [|h7 [|h8 r']]]]]]]];
+        try (split; [intros H; destruct (not_okres_err H) | discriminate]).
+      rewrite okres_hex_escape.
+      destruct (hex_num [h1; h2; h3; h4; h5; h6; h7; h8] 0) as [v|] eqn:Ev.
+      2:{ split; [intros [(v' & X & _) _]; discriminate | discriminate]. }
+      destruct (v <? 1114112) eqn:Elt.
+      2:{ cbn [andb]. split; [intros [(v' & X & Y) _]; inversion X; subst; congruence | discriminate]. }
+      cbn [andb].
+      assert (Eh : forallb is_hex [h1; h2; h3; h4; h5; h6; h7; h8] = true).
+      { destruct (forallb is_hex [h1; h2; h3; h4; h5; h6; h7; h8]) eqn:X; [reflexivity|].
+        rewrite (hex_num_not_hex _ 0 X) in Ev. discriminate. }
+      pose proof Eh as Eh'. cbn [forallb] in Eh'.
+      repeat (let A := fresh "A" in apply andb_true_iff in Eh'; destruct Eh' as [A Eh']).
+      repeat match goal with
+             | [ A : is_hex ?h = true |- _ ] =>
+               rewrite (scan_plain_cons q h _ (is_hex_plain q h q_quote A)) in Hs; clear A
+             end.
+      rewrite <- (IH r'); [| cbn in Hl1; lia | exact Hs].
+      split; [intros [_ H]; exact H | intros H; split; [eauto | exact H]]. }
+    destruct (d =? 78) eqn:EN.
+    { subst G. split; [intros H; destruct (not_okres_unsup H) | discriminate]. }
+    rewrite <- okres_push. apply Hsimple; apply N.eqb_neq; assumption.
+  Qed.
+End Accepted.
+
+Lemma open_quote_of_accepted : forall q r, q <> 10 -> scan_simple q r = true -> open_quote q r = (false, r).
+Proof.
+  intros q r Hq H. unfold open_quote. destruct r as [|c2 [|c3 r2]]; try reflexivity.
+  destruct (c2 =? q) eqn:E2; [|reflexivity]. destruct (c3 =? q) eqn:E3; [|reflexivity].
+  exfalso. cbn [scan_simple] in H. rewrite E2 in H. destruct r2; [|discriminate].
+  apply N.eqb_eq in E3, H. congruence.
+Qed.
+
+(* a text accepted in single- or double-quote form is a complete string literal exactly when lit_ok holds *)
+Theorem accepted_is_literal_iff : forall q r,
+  q = 34 \/ q = 39 -> simple_rec q (q :: r) = true ->
+  existsb bad_source_char (q :: r) = false -> ~ In 13 (q :: r) ->
+  ((exists t, unquote_str (q :: r) true = UOk t) <-> lit_ok q r = true).
+Proof.
+  intros q r Hq Hs Hbad Hcr.
+  assert (Hscan : scan_simple q r = true).
+  { unfold simple_rec in Hs. rewrite N.eqb_refl in Hs. exact Hs. }
+  rewrite <- (body_of_accepted q Hq (length r) r (le_n _) Hscan).
+  unfold unquote_str. rewrite (is_quoted_simple q _ true Hq Hs).
+  unfold py_str_literal_eval. rewrite Hbad.
+  rewrite normalize_no_cr.
+  2:{ apply forallb_forall. intros x Hx. apply negb_true_iff. apply N.eqb_neq. intros E. subst x. auto. }
+  replace (is_quote q) with true by (destruct Hq; subst q; reflexivity).
+  rewrite open_quote_of_accepted by (destruct Hq; lia || exact Hscan).
+  unfold okres. destruct (body q false r) as [t rest| |].
+  - destruct (blank_tail rest) eqn:Eb.
+    + split; [intros _; eauto | intros _; eauto].
+    + split; [intros (t' & X); discriminate | intros (t' & rest' & X & Y); inversion X; subst; congruence].
+  - split; [intros (t' & X); discriminate | intros (t' & rest' & X & Y); discriminate].
+  - split; [intros (t' & X); discriminate | intros (t' & rest' & X & Y); discriminate].
+Qed.
